@@ -94,6 +94,22 @@ func (p *c01Imp) Paint(ctx context.Context, c Color, flag bool, oflag *bool) (Co
 	return p.retC, p.seeCtx(ctx)
 }
 
+// wide-set rotation: only the selected value ranges over its full type, the others over the one-byte class
+func c01I32(name string, wide bool) int32 {
+	v := vapi.Int32(name)
+	if !wide {
+		vapi.Assume(vapi.And(v >= -128, v <= 127))
+	}
+	return v
+}
+func c01I64(name string, wide bool) int64 {
+	v := vapi.Int64(name)
+	if !wide {
+		vapi.Assume(vapi.And(v >= -128, v <= 127))
+	}
+	return v
+}
+
 func c01Map(name string) map[string]string {
 	if !vapi.Bool(name + "has") {
 		return nil
@@ -158,11 +174,19 @@ func c01CheckErr(imp *c01Imp, err error) bool {
 
 // ---------- Add: scalar in/out/return, request and response context/status ----------
 func VerifC01Add() {
-	imp := &c01Imp{ret32: vapi.Int32("ret"), sum: vapi.Int64("sumout"), rspCtx: c01Map("rspctx"), rspSt: c01Map("rspst")}
+	// group 0..4: one wide scalar each; 5: request context/status maps; 6: response context/status maps
+	grp := vapi.Choice("group", 7)
+	imp := &c01Imp{ret32: c01I32("ret", grp == 3), sum: c01I64("sumout", grp == 4)}
+	if grp == 6 {
+		imp.rspCtx, imp.rspSt = c01Map("rspctx"), c01Map("rspst")
+	}
 	c01Outcome(imp)
 	obj := c01Setup(imp)
-	a, b, sum := vapi.Int32("a"), vapi.Int64("b"), vapi.Int64("sumin")
-	reqCtx, reqSt := c01Map("reqctx"), c01Map("reqst")
+	a, b, sum := c01I32("a", grp == 0), c01I64("b", grp == 1), c01I64("sumin", grp == 2)
+	var reqCtx, reqSt map[string]string
+	if grp == 5 {
+		reqCtx, reqSt = c01Map("reqctx"), c01Map("reqst")
+	}
 	wantCtx, wantSt := map[string]string{}, map[string]string{}
 	for k, v := range reqCtx {
 		wantCtx[k] = v
@@ -214,13 +238,24 @@ func VerifC01Echo() {
 
 // ---------- Swap: struct, map, out map, out vector; Paint: enum, bool ----------
 func VerifC01Swap() {
-	imp := &c01Imp{retIn: Inner{A: vapi.Int32("reta"), S: vapi.String("rets", vapi.Len("retslen", 1))}, om: c01Map("om")}
-	for i, n := 0, vapi.Len("ovn", 2); i < n; i++ {
-		imp.ov = append(imp.ov, vapi.Int32("ov"))
+	grp := vapi.Choice("group", 3) // 0: argument side symbolic, 1: result struct/map, 2: out vector
+	imp := &c01Imp{retIn: Inner{A: c01I32("reta", grp == 1), S: "r"}}
+	if grp == 1 {
+		imp.retIn.S = vapi.String("rets", vapi.Len("retslen", 1))
+		imp.om = c01Map("om")
+	}
+	if grp == 2 {
+		for i, n := 0, vapi.Len("ovn", 2); i < n; i++ {
+			imp.ov = append(imp.ov, c01I32("ov", i == 0))
+		}
 	}
 	obj := c01Setup(imp)
-	in := Inner{A: vapi.Int32("ina"), S: vapi.String("ins", vapi.Len("inslen", 1))}
-	m := c01Map("m")
+	in := Inner{A: c01I32("ina", grp == 0), S: "i"}
+	var m map[string]string
+	if grp == 0 {
+		in.S = vapi.String("ins", vapi.Len("inslen", 1))
+		m = c01Map("m")
+	}
 	var om map[string]string
 	var ov []int32
 	ret, err := obj.SwapWithContext(context.Background(), &in, m, &om, &ov)
@@ -261,6 +296,9 @@ func VerifC01OneWay() {
 	_, err := obj.AddOneWayWithContext(context.Background(), a, b, &sum)
 	vapi.Check(err == nil, "a one-way call returns without error")
 	vapi.Quiesce()
+	if !vapi.Engine() {
+		time.Sleep(100 * time.Millisecond)
+	}
 	vapi.Check(atomic.LoadInt32(&imp.calls) == 1, "a one-way call delivers its arguments exactly once")
 	vapi.Check(vapi.And(imp.a == a, imp.b == b), "a one-way call delivers exactly its arguments")
 	vapi.Check(atomic.LoadInt32(&tars.VerifC01Replies) == 0, "a one-way call produces no reply")
@@ -312,7 +350,7 @@ func c01SM(name string) tars.ServerFilterMiddleware {
 }
 
 func VerifC01Filters() {
-	imp := &c01Imp{ret32: vapi.Int32("ret"), sum: vapi.Int64("sumout")}
+	imp := &c01Imp{ret32: c01I32("ret", false), sum: c01I64("sumout", false)}
 	c01Outcome(imp)
 	obj := c01Setup(imp)
 	c01Trace = nil
@@ -340,7 +378,7 @@ func VerifC01Filters() {
 		tars.VerifC01ServerMiddleware(c01SM("sm2"))
 		want = []string{"cm1", "cm2", "sm1", "sm2"}
 	}
-	a, b, sum := vapi.Int32("a"), vapi.Int64("b"), vapi.Int64("sumin")
+	a, b, sum := c01I32("a", false), c01I64("b", false), c01I64("sumin", false)
 	ret, err := obj.AddWithContext(context.Background(), a, b, &sum)
 	vapi.Check(atomic.LoadInt32(&imp.calls) == 1, "filters: the implementation runs exactly once")
 	vapi.Check(vapi.And(imp.a == a, imp.b == b), "filters: the implementation receives exactly the arguments")
@@ -355,4 +393,49 @@ func VerifC01Filters() {
 	}
 	vapi.Check(ok, "filters: each pass-through filter ran exactly once, in registration order")
 	vapi.Reach("c01-filters")
+}
+
+// ---------- two concurrent callers sharing one proxy ----------
+func VerifC01TwoCallers() {
+	imp := &c01TwoImp{}
+	obj := NewSvc()
+	sp := tars.VerifC01Setup(obj, imp)
+	obj.SetServant(sp)
+	a1, a2 := c01I32("a1", true), c01I32("a2", false)
+	var r1, r2 int32
+	var s1, s2 int64
+	var e1, e2 error
+	var done int32
+	go func() {
+		r2, e2 = obj.AddWithContext(context.Background(), a2, 2, &s2)
+		atomic.StoreInt32(&done, 1)
+	}()
+	r1, e1 = obj.AddWithContext(context.Background(), a1, 1, &s1)
+	for atomic.LoadInt32(&done) == 0 {
+		time.Sleep(10 * time.Millisecond)
+	}
+	vapi.Check(e1 == nil && e2 == nil, "concurrent callers: both calls succeed")
+	// the implementation answers ret = a, sum = b*1000 + a: each caller must get the answer to ITS call
+	vapi.Check(vapi.And(r1 == a1, s1 == 1000+int64(a1)), "concurrent callers: caller 1 receives the result of its own call")
+	vapi.Check(vapi.And(r2 == a2, s2 == 2000+int64(a2)), "concurrent callers: caller 2 receives the result of its own call")
+	vapi.Check(atomic.LoadInt32(&imp.calls) == 2, "concurrent callers: the implementation runs once per call")
+	vapi.Reach("c01-twocallers")
+}
+
+type c01TwoImp struct{ calls int32 }
+
+func (p *c01TwoImp) Add(ctx context.Context, a int32, b int64, sum *int64) (int32, error) {
+	atomic.AddInt32(&p.calls, 1)
+	*sum = b*1000 + int64(a)
+	return a, nil
+}
+func (p *c01TwoImp) Echo(ctx context.Context, s string, raw []int8, os *string, oraw *[]int8) (string, error) {
+	return "", nil
+}
+func (p *c01TwoImp) Ping(ctx context.Context) error { return nil }
+func (p *c01TwoImp) Swap(ctx context.Context, i *Inner, m map[string]string, om *map[string]string, ov *[]int32) (Inner, error) {
+	return Inner{}, nil
+}
+func (p *c01TwoImp) Paint(ctx context.Context, c Color, flag bool, oflag *bool) (Color, error) {
+	return 0, nil
 }
